@@ -42,7 +42,12 @@ def build(c):
         atoms.set_masses([fl(m) for m in c["masses"]])
     atoms.calc = Prescribed(arr(c["forces"]))
     delta = arr(c["delta"]) if isinstance(c["delta"], list) else fl(c["delta"])
-    sim = ForceBias(atoms, delta, temperature=fl(c["T"]), seed=c.get("seed", 1), logfile=None)
+    if c.get("late_T"):
+        # annealing / heating: the driver is built at another temperature and re-tuned through its public attribute before use
+        sim = ForceBias(atoms, delta, temperature=fl(c["T"]) * 3.0 + 50.0, seed=c.get("seed", 1), logfile=None)
+        sim.temperature = fl(c["T"])
+    else:
+        sim = ForceBias(atoms, delta, temperature=fl(c["T"]), seed=c.get("seed", 1), logfile=None)
     if late == "before_power":
         atoms.set_masses([fl(m) for m in c["masses"]])
         sim.update_masses()
